@@ -19,4 +19,6 @@ for c in $CHECKS; do
   [ ${PIPESTATUS[0]} -ne 0 ] && rc=1
 done
 rm -rf $S
+# binaries and mod files built against the scratch copy
+rm -f $ROOT/.bin/*.alt*.test; rm -rf $ROOT/.tmp/alt-[0-9a-f]*
 exit $rc
